@@ -322,6 +322,71 @@ def m2d_oracle(case):
             + (["leap-february"] if leapfeb else [])}
 
 
+# ------------------------------------------------------------ infinite values
+@st.composite
+def inf_case(draw, tier):
+    runs = draw(st.lists(st.integers(1, 5), min_size=1, max_size=5))
+    n = sum(runs)
+    val = st.one_of(st.sampled_from([float("inf"), float("-inf"),
+                                     float("inf"), float("nan")]),
+                    st.floats(-40., 40., allow_nan=False))
+    return {"runs": runs, "vals": [draw(val) for _ in range(n)],
+            "op": draw(st.integers(0, 3)),
+            "maxnan": draw(st.integers(0, 3))}
+
+
+def inf_oracle(case):
+    """+-inf are values, not missing entries: sums, means, maxima and last
+    values follow IEEE arithmetic (inf - inf = NaN)."""
+    runs, op, maxnan = case["runs"], case["op"], case["maxnan"]
+    idx = np.repeat(np.arange(len(runs)) + 5, runs).astype(np.int64)
+    x = np.array(case["vals"], dtype=np.float64)
+    if not np.isinf(x).any():
+        raise Skip()
+
+    def eq(a, b):
+        if np.isnan(b):
+            return bool(np.isnan(a))
+        if np.isinf(b):
+            return a == b
+        return abs(a - b) <= 1e-9 * max(1., abs(b))
+
+    out = dutils.aggregate(idx, x.copy(), op, maxnan)
+    flat = dutils.flathomogen(idx, x.copy(), maxnan)
+    if len(out) != len(runs) or flat.shape != x.shape:
+        raise Violation(f"shapes {out.shape}, {flat.shape}")
+    start = 0
+    with np.errstate(all="ignore"):
+        for k, r in enumerate(runs):
+            xs, fs = x[start:start + r], flat[start:start + r]
+            start += r
+            nn = np.isnan(xs)
+            valid = xs[~nn]
+            if nn.sum() > maxnan:
+                if not np.isnan(out[k]) or not np.all(np.isnan(fs)):
+                    raise Violation(
+                        f"group {xs.tolist()} has more than maxnan={maxnan} "
+                        f"missing values: aggregate {out[k]!r}, flathomogen "
+                        f"{fs.tolist()}")
+                continue
+            if len(valid) == 0:
+                continue
+            exp = [valid.sum(), valid.mean(), valid.max(), valid[-1]][op]
+            if not eq(out[k], exp):
+                raise Violation(f"aggregate(op={op}, maxnan={maxnan}) group "
+                                f"{xs.tolist()} -> {out[k]!r}, expected "
+                                f"{exp!r}")
+            m = valid.mean()
+            if not np.all(np.isnan(fs[nn])) or \
+                    not all(eq(v, m) for v in fs[~nn]):
+                raise Violation(f"flathomogen(maxnan={maxnan}) group "
+                                f"{xs.tolist()} -> {fs.tolist()}, expected "
+                                f"the mean {m!r} at the non-missing entries")
+    return {"nt": True, "labels": [f"op:{op}",
+                                   "both-signs" if (x == np.inf).any()
+                                   and (x == -np.inf).any() else "one-sign"]}
+
+
 def enum_sizes(tier):
     """Series lengths and group lengths at and around powers of two."""
     ns = [255, 256, 257, 1023, 1024, 1025] if tier == "quick" else \
@@ -358,6 +423,8 @@ def sizes_oracle(case):
 
 
 SUBS = [
+    Sub("C08.infinite-values", inf_oracle, strategy=inf_case,
+        n=(150, 3000), shards=(4, 8)),
     Sub("C08.sizes-around-powers-of-two", sizes_oracle, enumerate=enum_sizes,
         shards=(16, 16)),
     Sub("C08.aggregate+flathomogen", agg_oracle, strategy=agg_case,
